@@ -36,24 +36,26 @@ type Site struct {
 
 // Descriptor is what the instrumenter reports about the copied tree.
 type Descriptor struct {
-	Module       string   `json:"module"`
-	Files        int      `json:"files"`
-	Sites        int      `json:"sites"`
-	SyncImports  []string `json:"sync_imports"`  // files importing sync or sync/atomic
-	BlockingSync []string `json:"blocking_sync"` // constructs that force operation-granular scheduling
-	SoftSync     []string `json:"soft_sync"`     // sync.Mutex/RWMutex/Once uses handled by the lock rewrite
-	GoStmts      int      `json:"go_stmts"`
-	ChanOps      int      `json:"chan_ops"`
-	PkgVars      []string `json:"pkg_vars"`      // package-level variables that are not error sentinels
-	OpOnly       bool     `json:"op_only"`       // scheduling must stay operation-granular
-	LockRewrites int      `json:"lock_rewrites"` // x.Lock()/x.RLock() statements rewritten to TryLock loops
-	ClockReads   int      `json:"clock_reads"`   // time.Now / Since / Until / Sleep expressions redirected to the simulated clock
-	Timers       []string `json:"timers"`        // time.After / AfterFunc / NewTimer / NewTicker / Tick: left on the real clock (their goroutines are foreign to the simulator)
-	OnceWraps    int      `json:"once_wraps"`    // x.Do(f) statements put behind a cooperative gate
-	WaitHints    int      `json:"wait_hints"`    // runtime.Gosched() statements preceded by a "waiting" hint
-	Rewrite      bool     `json:"rewrite"`       // lock rewriting was enabled for this copy
-	Verbatim     []string `json:"verbatim"`      // files copied without instrumentation (unparsable, package main, not imported by the root package)
-	SiteTable    []Site   `json:"-"`
+	Module         string   `json:"module"`
+	Files          int      `json:"files"`
+	Sites          int      `json:"sites"`
+	SyncImports    []string `json:"sync_imports"`  // files importing sync or sync/atomic
+	BlockingSync   []string `json:"blocking_sync"` // constructs that force operation-granular scheduling
+	SoftSync       []string `json:"soft_sync"`     // sync.Mutex/RWMutex/Once uses handled by the lock rewrite
+	GoStmts        int      `json:"go_stmts"`
+	ChanOps        int      `json:"chan_ops"`
+	PkgVars        []string `json:"pkg_vars"`      // package-level variables that are not error sentinels
+	OpOnly         bool     `json:"op_only"`       // scheduling must stay operation-granular
+	LockRewrites   int      `json:"lock_rewrites"` // x.Lock()/x.RLock() statements rewritten to TryLock loops
+	ClockNote      string   `json:"clock_note,omitempty"`
+	OwnLockMethods []string `json:"own_lock_methods,omitempty"` // Lock/RLock/TryLock methods declared by the module itself
+	ClockReads     int      `json:"clock_reads"`                // time.Now / Since / Until / Sleep expressions redirected to the simulated clock
+	Timers         []string `json:"timers"`                     // time.After / AfterFunc / NewTimer / NewTicker / Tick: left on the real clock (their goroutines are foreign to the simulator)
+	OnceWraps      int      `json:"once_wraps"`                 // x.Do(f) statements put behind a cooperative gate
+	WaitHints      int      `json:"wait_hints"`                 // runtime.Gosched() statements preceded by a "waiting" hint
+	Rewrite        bool     `json:"rewrite"`                    // lock rewriting was enabled for this copy
+	Verbatim       []string `json:"verbatim"`                   // files copied without instrumentation (unparsable, package main, not imported by the root package)
+	SiteTable      []Site   `json:"-"`
 }
 
 var syncishSelector = map[string]bool{"Load": true, "Store": true, "Swap": true, "CompareAndSwap": true, "Add": true,
@@ -148,6 +150,7 @@ func RunOpts(srcDir, dstDir string, rewrite bool) (*Descriptor, error) {
 	fset := token.NewFileSet()
 	parsed := map[string]*ast.File{}
 	srcs := map[string][]byte{}
+	clockSeam := true
 	pkgVars := map[string]map[string]bool{} // dir -> names
 	pkgMut := map[string]map[string]bool{}  // dir -> names of package-level variables that are not error sentinels
 	for _, rel := range goFiles {
@@ -171,7 +174,23 @@ func RunOpts(srcDir, dstDir string, rewrite bool) (*Descriptor, error) {
 			pkgVars[dir] = map[string]bool{}
 			pkgMut[dir] = map[string]bool{}
 		}
+		for _, imp := range f.Imports {
+			if strings.Trim(imp.Path.Value, "`\"") == "time" && imp.Name != nil && imp.Name.Name == "." {
+				// a dot import hides which identifiers are the clock: no file of the module is switched to the
+				// simulated clock then (a tree that reads two clocks would see time run backwards)
+				clockSeam = false
+				d.ClockNote = rel + " dot-imports time: the clock seam is off, the tree reads the real clock"
+			}
+		}
 		for _, decl := range f.Decls {
+			if fd, ok := decl.(*ast.FuncDecl); ok && fd.Recv != nil {
+				switch fd.Name.Name {
+				case "Lock", "RLock", "TryLock", "TryRLock":
+					// the module has lock methods of its own: only receivers that are exactly a sync.Mutex / RWMutex are
+					// then acquired through TryLock (a wrapper's Lock may do more than lock)
+					d.OwnLockMethods = append(d.OwnLockMethods, fmt.Sprintf("%s:%d %s", rel, fset.Position(fd.Pos()).Line, fd.Name.Name))
+				}
+			}
 			gd, ok := decl.(*ast.GenDecl)
 			if !ok || gd.Tok != token.VAR {
 				continue
@@ -241,7 +260,7 @@ func RunOpts(srcDir, dstDir string, rewrite bool) (*Descriptor, error) {
 				if imp.Name != nil {
 					timeName = imp.Name.Name
 				}
-				if timeName == "_" || timeName == "." {
+				if timeName == "_" || timeName == "." || !clockSeam {
 					timeName = ""
 				}
 			}
@@ -482,6 +501,7 @@ func RunOpts(srcDir, dstDir string, rewrite bool) (*Descriptor, error) {
 	hb.WriteString("// ResetGates opens every gate (called by the harness between runs).\n//\n//go:norace\nfunc ResetGates() {\n\tfor i := range gates {\n\t\tgates[i].depth = 0\n\t}\n}\n\n")
 	hb.WriteString("// Active is set by the harness around the concurrent phase of a run.\nvar Active bool\n\n// NoPreempt is kept for compatibility (always 0).\nvar NoPreempt int\n\n")
 	hb.WriteString("// SiteInfo describes one yield site.\ntype SiteInfo struct {\n\tFile string\n\tLine int\n\tFunc string\n\tFuncFirst bool\n\tGlobal bool\n\tHot bool\n}\n\n")
+	fmt.Fprintf(&hb, "// ExactLocks: the module declares Lock methods of its own; only receivers that are exactly a sync mutex are acquired cooperatively.\nconst ExactLocks = %v\n\n", len(d.OwnLockMethods) > 0)
 	fmt.Fprintf(&hb, "// ClockSites is the number of clock expressions of the module redirected to the simulated clock.\nconst ClockSites = %d\n\n", d.ClockReads)
 	fmt.Fprintf(&hb, "// OpOnly is set when the module contains blocking synchronisation of its own.\nconst OpOnly = %v\n\n", d.OpOnly)
 	hb.WriteString("// Sites is the table of generated yield sites.\nvar Sites = [...]SiteInfo{\n")
@@ -516,6 +536,16 @@ func CoopLock(p interface{}, read bool) bool {
 
 func tryFunc(p interface{}, read bool) func() bool {
 	switch v := p.(type) {
+	case *sync.Mutex:
+		if !read {
+			return v.TryLock
+		}
+		return nil
+	case *sync.RWMutex:
+		if read {
+			return v.TryRLock
+		}
+		return v.TryLock
 	case **sync.Mutex:
 		if !read && *v != nil {
 			return (*v).TryLock
@@ -533,7 +563,17 @@ func tryFunc(p interface{}, read bool) func() bool {
 		if *v == nil {
 			return nil
 		}
+		if ExactLocks {
+			switch (*v).(type) {
+			case *sync.Mutex, *sync.RWMutex:
+			default:
+				return nil
+			}
+		}
 		return tryFuncOf(*v, read)
+	}
+	if ExactLocks {
+		return nil // some other type with a Lock method: it may do more than lock
 	}
 	return tryFuncOf(p, read)
 }
@@ -551,9 +591,9 @@ func tryFuncOf(p interface{}, read bool) func() bool {
 	return nil
 }
 
-// SimNow is the simulated clock in nanoseconds since the Unix epoch (0: no simulation, the real clock is read).
+// SimNow is the simulated clock in nanoseconds since the Unix epoch (0: the real clock is read).
 // It is a plain variable written by whichever simulated task holds the token.
-var SimNow int64
+var SimNow int64 = 1767225600e9 // 2026-01-01T00:00:00Z from the first instruction of the process: package initialisers read it too
 
 // ClockReads counts reads of the simulated clock.
 var ClockReads uint64
